@@ -88,43 +88,49 @@ def chooseBatchSettings (combosTruthy : Bool) (combosProd : Int) (casesTruthy : 
           batchsize
         else
           batchsize
-      if (!true) then
-        .error .typeError
-      else
-        (match batchsize with
-        | none => .error .typeError
-        | some batchsize_v6 =>
-          if (decide (batchsize_v6 < (1 : Int))) then
-            .error .valueError
-          else
-            (match batchsize with
-            | none => .error .typeError
-            | some batchsize_v7 =>
-              let numBatches := (some ((n + batchsize_v7 - 1) / batchsize_v7) : Option Int)
-              let remainder := (some (0 : Int) : Option Int)
-              .ok (batchsize, numBatches, remainder)))
-    else
-      (match numBatches with
+      (match batchsize with
       | none => .error .typeError
-      | some numBatches_v8 =>
-        let numBatches := (some (min n numBatches_v8) : Option Int)
+      | some batchsize_v6 =>
         if (!true) then
           .error .typeError
         else
-          (match numBatches with
+          (match batchsize with
           | none => .error .typeError
-          | some numBatches_v9 =>
-            if (decide (numBatches_v9 < (1 : Int))) then
+          | some batchsize_v7 =>
+            if (decide (batchsize_v7 < (1 : Int))) then
               .error .valueError
             else
-              (match numBatches with
+              (match batchsize with
               | none => .error .typeError
-              | some numBatches_v10 =>
-                let tmp11 := (n / numBatches_v10)
-                let tmp12 := (n % numBatches_v10)
-                let batchsize := (some tmp11 : Option Int)
-                let remainder := (some tmp12 : Option Int)
+              | some batchsize_v8 =>
+                let numBatches := (some ((n + batchsize_v8 - 1) / batchsize_v8) : Option Int)
+                let remainder := (some (0 : Int) : Option Int)
                 .ok (batchsize, numBatches, remainder))))
+    else
+      (match numBatches with
+      | none => .error .typeError
+      | some numBatches_v9 =>
+        let numBatches := (some (min n numBatches_v9) : Option Int)
+        (match numBatches with
+        | none => .error .typeError
+        | some numBatches_v10 =>
+          if (!true) then
+            .error .typeError
+          else
+            (match numBatches with
+            | none => .error .typeError
+            | some numBatches_v11 =>
+              if (decide (numBatches_v11 < (1 : Int))) then
+                .error .valueError
+              else
+                (match numBatches with
+                | none => .error .typeError
+                | some numBatches_v12 =>
+                  let tmp13 := (n / numBatches_v12)
+                  let tmp14 := (n % numBatches_v12)
+                  let batchsize := (some tmp13 : Option Int)
+                  let remainder := (some tmp14 : Option Int)
+                  .ok (batchsize, numBatches, remainder)))))
 
 def sowerInit {α : Type} : Except PyErr (List α × Int × Int) :=
   let batchCases := []
